@@ -69,9 +69,9 @@ func (c *converter) ProgramEnd() error {
 			"local _i=${2}",
 			fmt.Sprintf(`local _l=%s`, c.sliceLenString("${1}")),
 			`for ((_c=${_l};_c<${_i};_c++)); do`,
-			c.sliceAssignmentString("${1}", "${_c}", "${4}", false),
+			c.sliceAssignmentString("${1}", "${_c}", "4", false),
 			`done`,
-			c.sliceAssignmentString("${1}", "${_i}", "${3}", false),
+			c.sliceAssignmentString("${1}", "${_i}", "3", false),
 		)
 	}
 
@@ -81,8 +81,8 @@ func (c *converter) ProgramEnd() error {
 			fmt.Sprintf(`local _l=%s`, c.sliceLenString("${2}")),
 			"local _n=$(eval \"echo \\${${1}}\")",
 			"while [ ${_i} -lt ${_l} ]; do",
-			fmt.Sprintf("local _v=%s", c.sliceEvaluationString("${2}", "${_i}")),
-			c.sliceAssignmentString("${_n}", "${_i}", "${_v}", false),
+			c.sliceEvaluationString("local _v", "${2}", "${_i}"),
+			c.sliceAssignmentString("${_n}", "${_i}", "_v", false),
 			"_i=$((${_i}+1))",
 			"done",
 		)
@@ -386,24 +386,17 @@ func (c *converter) SliceInstantiation(values []string, valueUsed bool) (string,
 	helper := c.nextHelperVar()
 	c.VarAssignment(helper, fmt.Sprintf(`_dv%s`, c.varEvaluationString("_dvc", true)), false)
 
-	if len(values) > 0 {
-		vals := ""
-
-		for _, value := range values {
-			vals = fmt.Sprintf(`%s \"%s\"`, vals, value)
-		}
-		c.addLine(fmt.Sprintf(`eval "%s=(%s)"`, c.varEvaluationString(helper, false), strings.TrimSpace(vals)))
+	// Store the values one by one, the assignment helper does not scan a value twice.
+	for i, value := range values {
+		c.sliceAssignmentHelperRequired = true
+		c.addLine(fmt.Sprintf(`_sah %s %d "%s" ""`, c.varEvaluationString(helper, false), i, value))
 	}
 	return c.varEvaluationString(helper, false), nil
 }
 
 func (c *converter) SliceEvaluation(name string, index string, valueUsed bool) (string, error) {
 	helper := c.nextHelperVar()
-	c.VarAssignment(
-		helper,
-		c.sliceEvaluationString(name, index),
-		false,
-	)
+	c.addLine(c.sliceEvaluationString(c.varName(helper, false), name, index))
 	return c.VarEvaluation(helper, valueUsed, false)
 }
 
@@ -563,13 +556,16 @@ func (c *converter) varEvaluationString(name string, global bool) string {
 	return fmt.Sprintf("${%s}", c.varName(name, global))
 }
 
-func (c *converter) sliceAssignmentString(name string, index string, value string, global bool) string {
+// sliceAssignmentString stores the value of the variable valueVar (e.g. "3" or "_v") in a slice. The
+// value is expanded by the evaluated assignment itself, it is not scanned a second time.
+func (c *converter) sliceAssignmentString(name string, index string, valueVar string, global bool) string {
 	c.sliceAssignmentHelperRequired = true
-	return fmt.Sprintf(`eval "%s[%s]=\"%s\""`, name, index, value)
+	return fmt.Sprintf(`eval "%s[%s]=\"\${%s}\""`, name, index, valueVar)
 }
 
-func (c *converter) sliceEvaluationString(name string, index string) string {
-	return fmt.Sprintf(`$(eval "echo \${%s[%s]}")`, name, index)
+// sliceEvaluationString assigns a slice element to target without word splitting or pathname expansion.
+func (c *converter) sliceEvaluationString(target string, name string, index string) string {
+	return fmt.Sprintf(`eval "%s=\"\${%s[%s]}\""`, target, name, index)
 }
 
 func (c *converter) sliceLenString(name string) string {
